@@ -13,6 +13,17 @@ WORLD_RULE = ("state = canonical dump of the real PubSub/router/score object gra
 ALL_PROPERTIES = ["C%02d" % i for i in range(1, 21)]
 
 CHECKS = {
+    "C04": {
+        "level": "model_checking", "shards": 16, "deadline_quick": 110, "deadline_thorough": 1800,
+        "engine": "E-WORLD",
+        "technique": "explicit-state model checking of the implementation: one BFS by replay per validator configuration (the product of placements, modes and verdicts), asynchronous validators gated so that every completion order is a history",
+        "rule": WORLD_RULE + "; scenarios = every vector of up to k validators (default/topic x inline/asynchronous x {Accept, Reject, Ignore, out-of-range}) plus timeout shapes",
+        "level_text": "for every validator vector up to k (quick 3, thorough 4) every history over a remote copy, a duplicate from a second forwarder injected at every point, release of the gated asynchronous validators in every order, "
+                      "a validator timeout that fires, and a local publication; delivery, forwarding, the invalid-delivery counters of every forwarder and the return value of Publish are judged against the statement's decision table",
+        "level_note": "global/per-topic throttle exhaustion is not driven yet; k>4 is not enumerated",
+        "assumptions": COMMON_ASSUME,
+        "design_ref": "DESIGN.md §5 C04",
+    },
     "C05": {
         "level": "model_checking", "shards": 7, "deadline_quick": 110, "deadline_thorough": 1800,
         "engine": "E-WORLD",
